@@ -117,9 +117,18 @@ func (c *zzCache) GetTLSSecretPath(defaultNamespace, secretName string, track []
 	return convtypes.CrtFile{}, errors.New("secret not found")
 }
 
+// zzSvcPort: the service port an Ingress references; s1 maps port 80 to targetPort 8080 so that
+// the port written in the Ingress and the backend's port differ, s2 uses 8080 for both.
+func zzSvcPort(name string) int32 {
+	if name == "s1" {
+		return 80
+	}
+	return 8080
+}
+
 func zzSvc(name, ip string) (*api.Service, *api.Endpoints) {
 	svc := &api.Service{ObjectMeta: metav1.ObjectMeta{Namespace: "default", Name: name}}
-	svc.Spec.Ports = []api.ServicePort{{Name: "http", Port: 8080, TargetPort: intstr.FromInt(8080)}}
+	svc.Spec.Ports = []api.ServicePort{{Name: "http", Port: zzSvcPort(name), TargetPort: intstr.FromInt(8080)}}
 	ep := &api.Endpoints{ObjectMeta: metav1.ObjectMeta{Namespace: "default", Name: name}}
 	ep.Subsets = []api.EndpointSubset{{
 		Addresses: []api.EndpointAddress{{IP: ip}},
@@ -151,7 +160,7 @@ func zzIngress(name string, created int64, prefix string) *networking.Ingress {
 		ing.Spec.Rules[0].HTTP = &networking.HTTPIngressRuleValue{Paths: []networking.HTTPIngressPath{{
 			Path: "/",
 			Backend: networking.IngressBackend{Service: &networking.IngressServiceBackend{
-				Name: svc, Port: networking.ServiceBackendPort{Number: 8080},
+				Name: svc, Port: networking.ServiceBackendPort{Number: zzSvcPort(svc)},
 			}},
 		}}}
 	}
